@@ -48,27 +48,64 @@ class Lock:
 # process drivers
 # -----------------------------------------------------------------------------------------
 
-def _run_lines(cmd, lines, timeout):
-    """feed lines, collect answer lines; returns (answers, returncode)"""
+def _run_lines(cmd, lines, timeout, idle=None):
+    """feed lines, collect answer lines; returns (answers, returncode).
+    timeout: limit for the whole batch; idle: limit (s) for the time between two answers (a single request that hangs is cut
+    after `idle` seconds instead of holding the batch until `timeout`)."""
     data = "".join(l + "\n" for l in lines)
+    if idle is None:
+        try:
+            p = subprocess.run(cmd, input=data, capture_output=True, text=True, env=env, timeout=timeout)
+            out = p.stdout.split("\n")
+            return out[:-1], p.returncode      # the piece after the last newline is never an answer
+        except subprocess.TimeoutExpired as e:
+            out = e.stdout or b""
+            if isinstance(out, bytes):
+                out = out.decode("utf-8", "replace")
+            return out.split("\n")[:-1], "timeout"
+    import threading, selectors
+    p = subprocess.Popen(cmd, stdin=subprocess.PIPE, stdout=subprocess.PIPE, stderr=subprocess.DEVNULL, env=env)
+
+    def feed():
+        try:
+            p.stdin.write(data.encode("utf-8"))
+            p.stdin.close()
+        except Exception:
+            pass
+    threading.Thread(target=feed, daemon=True).start()
+    sel = selectors.DefaultSelector()
+    sel.register(p.stdout, selectors.EVENT_READ)
+    buf, answers, t0, last = b"", [], time.time(), time.time()
+    rc = None
+    while True:
+        if time.time() - t0 > timeout or time.time() - last > idle:
+            p.kill()
+            rc = "timeout"
+            break
+        if not sel.select(timeout=0.5):
+            if p.poll() is not None and not sel.select(timeout=0):
+                break
+            continue
+        chunk = os.read(p.stdout.fileno(), 1 << 16)
+        if not chunk:
+            break
+        last = time.time()
+        buf += chunk
+        *full, buf = buf.split(b"\n")
+        answers += [x.decode("utf-8", "replace") for x in full]
     try:
-        p = subprocess.run(cmd, input=data, capture_output=True, text=True, env=env, timeout=timeout)
-        # the last piece is either empty (complete output) or a partial line of a process that died: never an answer
-        return p.stdout.split("\n")[:-1], p.returncode
-    except subprocess.TimeoutExpired as e:
-        out = e.stdout or b""
-        if isinstance(out, bytes):
-            out = out.decode("utf-8", "replace")
-        lines_out = out.split("\n")
-        return lines_out[:-1], "timeout"
+        p.wait(timeout=5)
+    except Exception:
+        p.kill()
+    return answers, (rc if rc is not None else p.returncode)
 
 
-def _batch(cmd, lines, timeout, crash_answer):
+def _batch(cmd, lines, timeout, crash_answer, idle=None):
     """robust batch: if the process dies on request k, record a crash for k and go on with k+1"""
     res = []
     todo = list(lines)
     while todo:
-        ans, rc = _run_lines(cmd, todo, timeout)
+        ans, rc = _run_lines(cmd, todo, timeout, idle)
         ans = [a for a in ans]
         if len(ans) >= len(todo):
             res.extend(ans[:len(todo)])
@@ -80,7 +117,7 @@ def _batch(cmd, lines, timeout, crash_answer):
     return res
 
 
-def vh_batch(reqs, shards=None, timeout=600):
+def vh_batch(reqs, shards=None, timeout=600, idle=None):
     """reqs: list of dict -> list of dict answers (crashes -> {"crash": rc})"""
     if not reqs:
         return []
@@ -89,7 +126,7 @@ def vh_batch(reqs, shards=None, timeout=600):
     chunks = [lines[i::shards] for i in range(shards)]
 
     def work(ch):
-        return _batch([VH], ch, timeout, lambda rc: json.dumps({"crash": str(rc)}))
+        return _batch([VH], ch, timeout, lambda rc: json.dumps({"crash": str(rc)}), idle)
 
     with concurrent.futures.ThreadPoolExecutor(shards) as ex:
         outs = list(ex.map(work, chunks))
